@@ -30,6 +30,8 @@ PLATFORMS = [
 ]
 KEYS = ["VT_SHARED", "VT_DUP", "VT_EQ", "VT_K_s1", "VT_K_s2", "VT_K_s3", "NEXTEST_PROFILE", "NEXTEST_EXECUTION_MODE", "NEXTEST_TEST_GROUP", "NEXTEST_TEST_GROUP_SLOT"]
 # what a test sees for a key no script provides
+# behaviours that make the script a failed one: non-zero exit, death by signal, overrunning its slow-timeout (whatever its exit status then)
+FAILING = ("fail", "timeout", "timeout0", "sigfail")
 BASELINE = {"NEXTEST_PROFILE": "default", "NEXTEST_EXECUTION_MODE": "process-per-test", "NEXTEST_TEST_GROUP": "@global", "NEXTEST_TEST_GROUP_SLOT": "none"}
 
 
@@ -54,10 +56,15 @@ def gen_scenario(seed, k):
         defs = ["s2", "s1"]
     if k == 2:
         defs = ["s1", "s2"]
+    if k in (3, 4):
+        defs = ["s2", "s1"]
     scripts = {}
     for s in defs:
-        beh = rng.choice(["ok", "ok", "ok", "ok", "slowok", "fail", "noeq", "reserved", "empty", "leakok"])
+        beh = rng.choice(["ok", "ok", "ok", "ok", "slowok", "fail", "noeq", "reserved", "empty", "leakok", "timeout", "timeout0", "sigfail"])
         if k == 0: beh = "ok"
+        # corpus: a script that overruns its slow-timeout is a failed script (also when it exits 0 on the SIGTERM it is sent): nothing after it runs
+        if k == 3: beh = "timeout" if s == defs[0] else "ok"
+        if k == 4: beh = "timeout0" if s == defs[0] else "ok"
         if k == 2: beh = "leakok" if s == "s1" else "ok"     # corpus: a script that succeeds but leaks a handle still provides its variables
         lines = [f"VT_K_{s}={s}v", f"VT_SHARED=from-{s}"]
         if rng.random() < 0.4: lines += ["VT_DUP=first", "VT_DUP=second-" + s]
@@ -75,6 +82,9 @@ def gen_scenario(seed, k):
         if beh == "reserved": lines.insert(rng.randrange(len(lines) + 1), rng.choice(["NEXTEST_FOO=1", "NEXTEST=2", "NEXTESTX=3"]))
         if beh == "empty": lines = []
         acts += ["env:" + hx(l) for l in lines]
+        if beh == "timeout": acts.append("hang")
+        if beh == "timeout0": acts += ["onsig:15:0:0", "hang"]
+        if beh == "sigfail": acts.append("kill:" + str(rng.choice([9, 6, 15])))
         acts.append("exit:" + (str(rng.choice([1, 3, 101])) if beh == "fail" else "0"))
         scripts[s] = {"beh": beh, "lines": lines}
         sc.scripts.append((s, acts))
@@ -88,7 +98,7 @@ def gen_scenario(seed, k):
     if k == 0:
         rules = [{"filter": "binary(t_one)", "platform": None, "setup": ["s1", "s2"], "truth": [t["bin"] == "t_one" for t in tests]},
                  {"filter": "all()", "platform": None, "setup": ["s1"], "truth": [True for t in tests]}]
-    if k == 2:
+    if k in (2, 3, 4):
         rules = [{"filter": "all()", "platform": None, "setup": ["s1", "s2"], "truth": [True for t in tests]}]
     if k == 1:
         # corpus: one script listed by two rules with different filters; a test matched only by the second rule must still get the variables
@@ -103,6 +113,7 @@ def gen_scenario(seed, k):
     for s in defs:
         cfg += f'[script.{s}]\ncommand = ["@VSCRIPT@", "{s}"]\n'
         if scripts[s]["beh"] == "leakok": cfg += 'capture-stdout = true\nleak-timeout = "200ms"\n'
+        if scripts[s]["beh"] in ("timeout", "timeout0"): cfg += 'slow-timeout = { period = "300ms", terminate-after = 1, grace-period = "400ms" }\n'
     cfg += '[profile.default]\nfail-fast = false\nstatus-level = "all"\nfinal-status-level = "all"\ntest-threads = 4\n'
     for r in rules:
         cfg += "[[profile.default.scripts]]\n"
@@ -122,7 +133,7 @@ def model_request(sc):
     defs = ",".join(m["defs"])
     rules = ";".join("+".join(r["setup"]) + ":" + ("".join("1" if b else "0" for b in r["truth"]) or "_") for r in m["rules"])
     sel = ",".join(str(i) for i, t in enumerate(m["tests"]) if t["selected"]) or "."
-    ran = ";".join(s + "=" + ("+".join(hx(l) for l in m["scripts"][s]["lines"]) or ".") for s in m["defs"] if m["scripts"][s]["beh"] != "fail") or "."
+    ran = ";".join(s + "=" + ("+".join(hx(l) for l in m["scripts"][s]["lines"]) or ".") for s in m["defs"] if m["scripts"][s]["beh"] not in FAILING) or "."
     keys = ",".join(hx(k) for k in KEYS)
     return f"scripts {defs} {rules} {sel} {len(m['tests'])} {ran} {keys}"
 
@@ -155,7 +166,7 @@ def monitors(sc, r, model_out):
     failed = None
     for s in en:
         exp_run.append(s)
-        if m["scripts"][s]["beh"] == "fail": failed = s; break
+        if m["scripts"][s]["beh"] in FAILING: failed = s; break
     if not sel: exp_run = []; failed = None
     got_run = [(p.get("argv") or ["?"])[0] for p in sprocs]
     if got_run != exp_run:
@@ -229,7 +240,7 @@ def check(seed, tier, n_quick=10, n_thorough=80):
     samples = [{"scenario": sc.name, "config": sc.config.replace(e2e.vscript_path(), "vscript"), "cli": sc.cli, "model": mo, "exit": r.exit} for (sc, r), mo in list(zip(res, outs))[:2]]
     return {"e2e_runs": len(res), "e2e_tests": sum(len(sc.meta["tests"]) for sc, _ in res), "e2e_processes": sum(len(r.procs) for _, r in res), "dist": dist,
             "violations": violations, "broken": broken, "samples": samples,
-            "rule": "end-to-end family `scr`: the real cargo-nextest runs 2-5 scripted tests with 1-3 setup scripts defined in random order, 1-3 [[profile.default.scripts]] rules with filters from a pool of 10 and platforms from a pool of 6 (host/target forms), a CLI -E filter and ignored tests (so a rule may match only unselected tests), script behaviours ok/slow/fail/no-'='/reserved NEXTEST key/empty, duplicate keys and values containing '='; the Lean model computes from the rule truth table the enabled list, the env-file verdicts and each test's variables; the scripted processes' own records give what ran, when, and with which environment"}
+            "rule": "end-to-end family `scr`: the real cargo-nextest runs 2-5 scripted tests with 1-3 setup scripts defined in random order, 1-3 [[profile.default.scripts]] rules with filters from a pool of 10 and platforms from a pool of 6 (host/target forms), a CLI -E filter and ignored tests (so a rule may match only unselected tests), script behaviours ok/slow/leaky-ok/fail/killed by a signal/overrunning the slow-timeout (dying on, or exiting 0 on, the SIGTERM)/no-'='/reserved NEXTEST key/empty, duplicate keys and values containing '='; the Lean model computes from the rule truth table the enabled list, the env-file verdicts and each test's variables; the scripted processes' own records give what ran, when, and with which environment"}
 
 
 if __name__ == "__main__":
